@@ -8,8 +8,8 @@ import (
 	"strings"
 	"time"
 
-	"github.com/goplus/mod/xgomod"
 	"github.com/goplus/mod/env"
+	"github.com/goplus/mod/xgomod"
 	"github.com/goplus/xgo/token"
 	"github.com/goplus/xgo/tool"
 
@@ -30,7 +30,9 @@ func (p *c36) Setup(env *fw.Env) error {
 	return nil
 }
 
-func (p *c36) Case(i int) fw.Case { return fw.Case{Kind: "history", P: map[string]string{"n": fmt.Sprint(40 + i%81)}} }
+func (p *c36) Case(i int) fw.Case {
+	return fw.Case{Kind: "history", P: map[string]string{"n": fmt.Sprint(40 + i%81)}}
+}
 
 var c36Names = []string{"a.go", "b.go", "m.xgo", "n.gop", "k.gox", "_x.go", "_y.xgo", "README", "notes.txt", "c.md", "data.json", "a.go.bak", "z.GO", "go.sum", "t_test.go", ".hidden.go"}
 
